@@ -144,6 +144,7 @@ func (s *TimerQueue) Cancel(id int) bool {
 	defer s.guard.Unlock()
 
 	if node, found := s.refer[id]; found {
+		node.cancelled = true
 		s.pendingDel <- node
 		delete(s.refer, id)
 		return true
@@ -190,14 +191,18 @@ func (s *TimerQueue) worker(ready chan struct{}) {
 
 func (s *TimerQueue) addNode(node *timerNode) {
 	s.guard.Lock()
-	s.refer[node.id] = node
+	var cancelled = node.cancelled
 	s.guard.Unlock()
-
+	if cancelled {
+		return // cancelled before the worker saw the start request
+	}
 	heap.Push(&s.timers, node)
 }
 
 func (s *TimerQueue) delNode(node *timerNode) {
-	heap.Remove(&s.timers, node.index)
+	if node.index >= 0 { // otherwise not in the heap: never pushed, or already popped
+		heap.Remove(&s.timers, node.index)
+	}
 }
 
 func (s *TimerQueue) tick(t time.Time) {
@@ -225,16 +230,19 @@ func (s *TimerQueue) trigger(now int64) []*timerNode {
 		}
 
 		// 如果timer需要重复执行，只修正heap，id保持不变
-		if node.period > 0 {
+		s.guard.Lock()
+		if node.cancelled {
+			heap.Pop(&s.timers) // its cancel request is still on the way: drop, do not deliver
+		} else if node.period > 0 {
 			node.deadline = now + node.period
 			heap.Fix(&s.timers, node.index)
+			expires = append(expires, node)
 		} else {
 			heap.Pop(&s.timers)
-			s.guard.Lock()
 			delete(s.refer, node.id)
-			s.guard.Unlock()
+			expires = append(expires, node)
 		}
-		expires = append(expires, node)
+		s.guard.Unlock()
 	}
 	return expires
 }
@@ -258,15 +266,18 @@ func (s *TimerQueue) nextID() int {
 // 二叉堆节点
 type timerNode struct {
 	id       int      // unique id
-	index    int      // array index of heap
+	index    int      // array index of heap, -1 while not in the heap
 	deadline int64    // Next execution time for this task in milliseconds
 	period   int64    // Period in milliseconds for repeating tasks
 	r        Runnable //
+
+	cancelled bool // set by Cancel, guarded by TimerQueue.guard
 }
 
 func newTimerNode(id int, deadline, period int64, r Runnable) *timerNode {
 	return &timerNode{
 		id:       id,
+		index:    -1,
 		deadline: deadline,
 		period:   period,
 		r:        r,
